@@ -8,6 +8,7 @@ import (
 	"go/types"
 	"math/big"
 	"os"
+	"runtime"
 	"sort"
 	"strings"
 
@@ -102,6 +103,7 @@ type Frame struct {
 type Exec struct {
 	P         *Loaded
 	st        *State
+	cleanExit *Term // path conditions of os.Exit(0) in driver mode
 	assumes   []*Term
 	obls      []*Obligation
 	inputs    []inputRec
@@ -195,6 +197,9 @@ func (x *Exec) pc() *Term {
 }
 
 func (x *Exec) assume(t *Term) {
+	if os.Getenv("GOVC_DEBUG_ASSUME") != "" && t.IsFalse() {
+		fmt.Fprintf(os.Stderr, "ASSUME false in %v\n%s\n", x.curFunc, debugStack())
+	}
 	if x.dry > 0 {
 		return
 	}
@@ -888,6 +893,9 @@ func (x *Exec) safetyLabel(kind string, pos token.Pos, fr *Frame) string {
 func (x *Exec) obligeBounds(idx, ln *Term, pos token.Pos, fr *Frame) {
 	if fr != nil && fr.ghost || x.ghost > 0 {
 		return
+	}
+	if os.Getenv("GOVC_DEBUG_ASSUME") != "" && BvUlt(idx, ln).IsFalse() {
+		fmt.Fprintf(os.Stderr, "BOUNDS false: idx=%s len=%s at %s\n", idx, ln, x.P.Fset.Position(pos))
 	}
 	x.oblige("S", "index", BvUlt(idx, ln), pos)
 }
@@ -1939,8 +1947,11 @@ func (x *Exec) appendOp(fr *Frame, cc *ssa.CallCommon, args []Value, pos token.P
 		// slices of structs etc.: concrete shapes only
 		na, oka := concreteLen(a)
 		nb, okb := concreteLen(b)
-		if !oka || !okb {
-			unsup("append on symbolic-length slice of %s", elem)
+		if !oka || !okb || x.isUntracked(a) || x.isUntracked(b) {
+			// lengths only: the result is a sequence whose elements are not tracked
+			r := x.untrackedSeq("append", elem)
+			x.assume(And(Eq(r.Len, BvAdd(a.Len, b.Len)), Not(r.Nil)))
+			return r
 		}
 		o := x.newObject(elem, "append")
 		e := make([]Value, 0, na+nb)
@@ -1960,6 +1971,14 @@ func (x *Exec) appendOp(fr *Frame, cc *ssa.CallCommon, args []Value, pos token.P
 		r.Nil = True()
 	}
 	return r
+}
+
+func (x *Exec) isUntracked(s SliceV) bool {
+	if s.Obj == nil {
+		return false
+	}
+	_, u := x.heapGet(s.Obj).(UnknownV)
+	return u
 }
 
 func isByteLike(t types.Type) bool {
@@ -2290,4 +2309,22 @@ func (x *Exec) resolveArgPath(fn *ssa.Function, args []Value, path string) (Valu
 		return v, true
 	}
 	return nil, false
+}
+
+func debugStack() string {
+	buf := make([]byte, 1<<14)
+	n := runtime.Stack(buf, false)
+	var keep []string
+	for _, l := range strings.Split(string(buf[:n]), "\n") {
+		if strings.HasPrefix(l, "main.") {
+			if i := strings.LastIndex(l, "("); i > 0 {
+				l = l[:i]
+			}
+			keep = append(keep, strings.TrimPrefix(l, "main.(*Exec)."))
+		}
+	}
+	if len(keep) > 8 {
+		keep = keep[:8]
+	}
+	return strings.Join(keep, " < ")
 }
